@@ -76,6 +76,19 @@ Proof.
   - intros H. exists x. split; auto. now apply cs_eqb_eq.
 Qed.
 
+Definition cs_eq_dec (a b : cs) : {a = b} + {a <> b}.
+Proof. decide equality. Defined.
+Definition res_eq_dec (a b : res) : {a = b} + {a <> b}.
+Proof. decide equality; [destruct b0, e | apply cs_eq_dec]; (left; reflexivity) || (right; discriminate). Defined.
+
+(* evaluate f once per state (the abstract execution of nested loops would otherwise repeat it) *)
+Definition memo (f : cs -> list res) : cs -> list res :=
+  let a := f Open in let b := f Closed in let c := f Bad in
+  fun st => match st with Open => a | Closed => b | Bad => c end.
+
+Lemma memo_eq f st : memo f st = f st.
+Proof. destruct st; reflexivity. Qed.
+
 Definition all_cs : list cs := [Open; Closed; Bad].
 Definition all_exit : list exit := [ENormal; EBreak; EContinue; EReturn; EPanic].
 Definition top : list res := flat_map (fun s => map (fun e => (s, e)) all_exit) all_cs.
@@ -90,7 +103,7 @@ Section Loop.
     match snd r with ENormal | EContinue => true | _ => false end.
 
   Definition expand (H : list cs) : list cs :=
-    H ++ flat_map (fun h => map fst (filter continues (f h))) H.
+    nodup cs_eq_dec (H ++ flat_map (fun h => map fst (filter continues (f h))) H).
 
   Definition heads_closed (H : list cs) : bool :=
     forallb (fun h => forallb (fun r => implb (continues r) (memcs (fst r) H)) (f h)) H.
@@ -106,7 +119,7 @@ Section Loop.
 
   Definition loop_post (st : cs) : list res :=
     let H := expand (expand (expand [st])) in
-    if heads_closed H && memcs st H then loop_result H else top.
+    if heads_closed H && memcs st H then nodup res_eq_dec (loop_result H) else top.
 End Loop.
 
 Fixpoint post (s : cstmt) (st : cs) : list res :=
@@ -120,10 +133,10 @@ Fixpoint post (s : cstmt) (st : cs) : list res :=
   | CContinue => [(st, EContinue)]
   | CPanic => [(st, EPanic)]
   | CUnknown => top
-  | CSeq a b => flat_map (fun r => match snd r with ENormal => post b (fst r) | _ => [r] end) (post a st)
-  | CIf a b => post a st ++ post b st
+  | CSeq a b => nodup res_eq_dec (flat_map (fun r => match snd r with ENormal => post b (fst r) | _ => [r] end) (post a st))
+  | CIf a b => nodup res_eq_dec (post a st ++ post b st)
   | CBlock b => map (fun r => (fst r, match snd r with EBreak => ENormal | e => e end)) (post b st)
-  | CLoop b => loop_post (post b) st
+  | CLoop b => loop_post (memo (post b)) st
   end.
 
 Lemma loop_sound (b : cstmt) (f : cs -> list res)
@@ -156,17 +169,20 @@ Proof.
   induction s; intros tr e HE st; try (inversion HE; subst; simpl; auto; fail).
   - (* CUnknown *) simpl. apply in_top.
   - (* CSeq *)
-    inversion HE; subst; simpl; apply in_flat_map.
+    inversion HE; subst; simpl; apply nodup_In; apply in_flat_map.
     + exists (run st tr, e). split; [now apply IHs1|]. simpl. destruct e; try (left; reflexivity). contradiction.
     + exists (run st tr1, ENormal). split; [now apply IHs1|]. simpl. rewrite run_app. now apply IHs2.
   - (* CIf *)
-    inversion HE; subst; simpl; apply in_or_app; [left; now apply IHs1 | right; now apply IHs2].
+    inversion HE; subst; simpl; apply nodup_In; apply in_or_app; [left; now apply IHs1 | right; now apply IHs2].
   - (* CLoop *)
     simpl. unfold loop_post.
-    destruct (heads_closed (post s) (expand (post s) (expand (post s) (expand (post s) [st]))) &&
-              memcs st (expand (post s) (expand (post s) (expand (post s) [st])))) eqn:C.
-    + apply andb_true_iff in C. destruct C as [C1 C2].
-      apply (loop_sound s (post s) IHs tr e HE _ C1 st). now apply memcs_In.
+    set (f := memo (post s)).
+    assert (Hf : forall tr e, Exec s tr e -> forall st, In (run st tr, e) (f st)).
+    { intros tr0 e0 H0 st0. unfold f. rewrite memo_eq. now apply IHs. }
+    destruct (heads_closed f (expand f (expand f (expand f [st]))) &&
+              memcs st (expand f (expand f (expand f [st])))) eqn:C.
+    + apply andb_true_iff in C. destruct C as [C1 C2]. apply nodup_In.
+      apply (loop_sound s f Hf tr e HE _ C1 st). now apply memcs_In.
     + apply in_top.
   - (* CBlock *)
     inversion HE; subst; simpl; apply in_map_iff.
